@@ -1,8 +1,9 @@
 """C16 — parseRMATS records reproduce the alternative isoform (DESIGN.md §3 C16).
 
-Proved: record constructors and exon lookups (see the contracts below). The top-level statement - applying each
-emitted record to the transcript gives the transcript with the event's alternative form - is decided here only by a
-labelled bounded small-scope check on the real code."""
+Proved: exon lookups, the junctions each event builds (coordinates, novel side, read-support gate), the dispatcher from an
+alignment to the record constructors (call-site preconditions of the constructors) and the constructors themselves. The
+top-level statement - applying each emitted record to the transcript gives the transcript with the event's alternative
+form - is decided here only by a labelled bounded small-scope check on the real code."""
 from __future__ import annotations
 import types
 import z3
@@ -245,6 +246,26 @@ EVENTS = {
 }
 
 
+# the junctions of an event, from the rMATS event definitions (coordinates are genomic, so "upstream" is the genomically lower exon whatever the
+# strand): (form, genomically lower exon, genomically higher exon), in the order the form's read counts are tested; the exons that define the
+# event (skipped exon, long / short exon, first / second exon) may be absent from a transcript ("novel" side), the constitutive neighbours
+# (upstream / downstream / flanking exon) must be exons of the transcript
+CONSTITUTIVE = ('upstream_exon', 'downstream_exon', 'flanking_exon')
+
+
+def expected_junctions(event, strand_is_plus):
+    if event == 'SE':
+        return [('skip', 'upstream_exon', 'downstream_exon'), ('inc', 'upstream_exon', 'exon'), ('inc', 'exon', 'downstream_exon')]
+    if event == 'MXE':
+        return [('inc', 'first_exon', 'downstream_exon'), ('skip', 'upstream_exon', 'second_exon')]
+    # alternative 5' site: the donor (exon end in transcript direction) varies, the flanking exon follows in transcript direction;
+    # alternative 3' site: the acceptor varies, the flanking exon precedes in transcript direction
+    flank_is_higher = (event == 'A5SS') == strand_is_plus
+    if flank_is_higher:
+        return [('inc', 'long_exon', 'flanking_exon'), ('skip', 'short_exon', 'flanking_exon')]
+    return [('inc', 'flanking_exon', 'long_exon'), ('skip', 'flanking_exon', 'short_exon')]
+
+
 class GhostVariants16:
     def __init__(self, owner):
         self.owner = owner
@@ -288,6 +309,8 @@ class _RmatsGating(Contract):
         txids = FnView(st.N, lambda i: SymObj('TxId16', i=i if is_z3(i) else z3.IntVal(i)), tag='transcripts')
         loc = SymObj('FeatureLocation', start=0, end=100, strand=e.int('gene_strand'), seqname='chr1', reading_frame_index=None, start_offset=0, end_offset=0,
                      ref=None, ref_db=None)
+        e.assume(z3.Or(loc.fields['strand'] == 1, loc.fields['strand'] == -1))
+        st.rec, st.plus, st.rec_strand = rec, None, loc.fields['strand']
         gene = SymObj('GeneStub16', transcripts=txids, location=loc, strand=loc.fields['strand'])
         st.anno = SymObj('AnnoStub16', genes={'G': gene}, transcripts=SymObj('TxTable16'))
         st.args = [rec, st.anno, SymObj('Genome16'), st.min_ijc, st.min_sjc]
@@ -306,7 +329,23 @@ class _RmatsGating(Contract):
 
             def mk_junction(I, a, k):
                 st = c._cur
-                j = SymObj('SpliceJunction', j=len(st.junctions), **k)
+                names = ('upstream_start', 'upstream_end', 'downstream_start', 'downstream_end', 'gene_id', 'chrom')
+                k = {**dict(zip(names, a)), **k}
+                n = len(st.junctions)
+                if st.plus is None:
+                    # the strand of the gene decides which exon of an alternative-site event is genomically lower
+                    st.plus = I.e.branch(st.rec_strand == 1, 'gene on the + strand')
+                exp = expected_junctions(c.event, st.plus)
+                if n < len(exp):
+                    form, lo, hi = exp[n]
+                    f = st.rec.fields
+                    I.e.prove(f'C16/gating/junction-{n}-joins-{lo}-and-{hi}-in-genomic-order-on-the-gene-of-the-event',
+                              z3.And(k['upstream_start'] == f[lo + '_start'], k['upstream_end'] == f[lo + '_end'],
+                                     k['downstream_start'] == f[hi + '_start'], k['downstream_end'] == f[hi + '_end'])
+                              if all(x in k for x in names) and k['gene_id'] == f['gene_id'] and k['chrom'] == f['chrom'] else False)
+                else:
+                    I.e.prove('C16/gating/no-junction-beyond-those-of-the-event', False)
+                j = SymObj('SpliceJunction', j=n, **k)
                 st.junctions.append(j)
                 return j
             reg.ctor_('SpliceJunction', mk_junction)
@@ -316,6 +355,16 @@ class _RmatsGating(Contract):
                 st = c._cur
                 tx = a[0]
                 st.aligns.append((o.fields['j'], tx.fields['i']))
+                exp = expected_junctions(c.event, st.plus)
+                if o.fields['j'] < len(exp):
+                    _, lo, hi = exp[o.fields['j']]
+                    flags = (list(a[1:]) + [k.get('upstream_novel'), k.get('downstream_novel')])[:2] if len(a) < 3 else list(a[1:3])
+                    if len(a) == 2:
+                        flags = [a[1], k.get('downstream_novel')]
+                    elif len(a) == 1:
+                        flags = [k.get('upstream_novel'), k.get('downstream_novel')]
+                    I.e.prove(f'C16/gating/junction-{o.fields["j"]}-only-the-event-exon-side-may-be-absent-from-the-transcript',
+                              flags[0] is (lo not in CONSTITUTIVE) and flags[1] is (hi not in CONSTITUTIVE))
                 if I.e.branch(st.aligned(o.fields['j'], tx.fields['i']), 'junction aligns'):
                     return SymObj('Aln16', j=o.fields['j'], i=tx.fields['i'])
                 return None
@@ -647,8 +696,8 @@ class InterjacentExons(Contract):
     path, qualname, props = SJ, 'SpliceJunctionTranscriptAlignment.get_interjacent_exons', ('C16',)
     declared_raises = ['ValueError']
     models = (install_exon_identity,)
-    assumptions = ('requires (contract of align_to_transcript): an index is -1 or the position of the exon with that boundary, at least one side aligned; '
-                   'exons sorted, non-empty, disjoint and non-adjacent',)
+    assumptions = ('requires (contract of align_to_transcript): an index is -1 or the position of the exon with that boundary (neither side aligned: '
+                   'nothing lies between); exons sorted, non-empty, disjoint and non-adjacent',)
 
     def setup(self, I):
         e = I.e
@@ -660,7 +709,7 @@ class InterjacentExons(Contract):
         st.U, st.D = e.int('junction_upstream_end'), e.int('junction_downstream_start')
         st.ue, st.ds = e.int('upstream_end_index'), e.int('downstream_start_index')
         e.assume(z3.And(st.U < st.D, z3.Or(st.ue == -1, z3.And(0 <= st.ue, st.ue < h.n, h.e[st.ue] == st.U)),
-                        z3.Or(st.ds == -1, z3.And(0 <= st.ds, st.ds < h.n, h.s[st.ds] == st.D)), z3.Or(st.ue != -1, st.ds != -1)))
+                        z3.Or(st.ds == -1, z3.And(0 <= st.ds, st.ds < h.n, h.s[st.ds] == st.D))))
         junction = SymObj('SpliceJunction', upstream_start=None, upstream_end=st.U, downstream_start=st.D, downstream_end=None, gene_id='G', chrom='chr1')
         st.args = [SymObj('SpliceJunctionTranscriptAlignment', junction=junction, tx_model=h.obj, upstream_start_index=-1, upstream_end_index=st.ue,
                           downstream_start_index=st.ds, downstream_end_index=-1, upstream_novel=True, downstream_novel=True)]
@@ -790,6 +839,9 @@ class _Interjacent(View):
     def sym_truth(self, I):
         return self.m > 0
 
+    def sym_len(self, I):
+        return self.m
+
     def sym_getitem(self, I, idx):
         if idx == 0:
             if not I.e.branch(self.m > 0, 'interjacent non-empty'):
@@ -809,7 +861,7 @@ class _JunctionDeletion(Contract):
     side = 'upstream'
     declared_raises = ['ValueError']
     models = (install_exon_identity,)
-    assumptions = ('requires (call site, convert_to_variant_records): a spanning exon exists; interjacent exons are consecutive exons between the '
+    assumptions = ('requires (proved at every call site by the contract of convert_to_variant_records, AlignmentConvert): a spanning exon exists; interjacent exons are consecutive exons between the '
                    'junction ends (contract of get_interjacent_exons) lying after (upstream) / before (downstream) the spanning exon; there is '
                    'something to delete (the spanning exon reaches beyond the junction end or an interjacent exon exists)',
                    'summary: coordinate_genomic_to_gene is its proved contract (C11); exons sorted, non-empty, disjoint')
@@ -896,7 +948,7 @@ class _JunctionInsSub(Contract):
     kind = 'upstream_insertion'
     declared_raises = ['ValueError']
     models = (install_exon_identity,)
-    assumptions = ('requires (call site): the junction carries all four coordinates; the aligned exon indices are positions of exons with that '
+    assumptions = ('requires (proved at every call site by AlignmentConvert, given the contract of align_to_transcript): the junction carries all four coordinates; the aligned exon indices are positions of exons with that '
                    'boundary; interjacent exons are consecutive (contract of get_interjacent_exons); only the quantifier-free order facts of the '
                    'exons involved are assumed', 'summary: coordinate_genomic_to_gene is its proved contract (C11)')
 
@@ -1001,6 +1053,157 @@ class _JunctionInsSub(Contract):
 
 for _kind in ('upstream_insertion', 'downstream_insertion', 'upstream_substitution', 'downstream_substitution'):
     register(type(f'Junction_{_kind}', (_JunctionInsSub,), dict(kind=_kind)))
+
+
+@register
+class AlignmentConvert(Contract):
+    """the dispatcher from an alignment to record constructors, verified against the contracts of what it calls: the lookups
+    (get_interjacent_exons, the two spanning lookups) are used through their postconditions, and at every call of a create_* constructor the
+    preconditions that constructor's contract assumes "at the call site" are proved here - a spanning exon that really contains the base next to
+    the junction, interjacent exons that are the consecutive run next to it, something to delete, an anchoring neighbour for an insertion, a
+    non-empty run for a substitution. Every constructor gets the annotation, gene sequence and variant id of this call and the lookup results
+    of this alignment; the records returned are exactly the records constructed, in order; nothing is constructed on a side whose junction end
+    already coincides with an exon boundary of the transcript with no exon in between"""
+    path, qualname, props = SJ, 'SpliceJunctionTranscriptAlignment.convert_to_variant_records', ('C16',)
+    declared_raises = ['ValueError']
+    assumptions = ('requires (contract of align_to_transcript): each index is -1 or the position of the exon with that boundary; the side opposite to a '
+                   'novel side is matched; exons sorted, non-empty, disjoint, non-adjacent; the callees are their proved contracts (postconditions assumed here)',)
+
+    def setup(self, I):
+        e = I.e
+        st = types.SimpleNamespace(made=[], calls=[])
+        st.h = h = mk_tx_tagged(I, gene_id='G')
+        # "exons sorted, non-empty, disjoint, non-adjacent" and "index -1 means no exon has that boundary" are assumed as their ground instances
+        # at the exon positions the function can talk about (no quantifiers), so that a wrong call is refuted with a model
+        st.terms, st.none_at = [], []
+        e.assume(z3.And(h.n >= 1, z3.Or(h.strand == 1, h.strand == -1)))
+        st.US, st.U, st.D, st.DE = e.int('junction_upstream_start'), e.int('junction_upstream_end'), e.int('junction_downstream_start'), e.int('junction_downstream_end')
+        st.usi, st.ue, st.ds, st.dei = e.int('upstream_start_index'), e.int('upstream_end_index'), e.int('downstream_start_index'), e.int('downstream_end_index')
+        st.un, st.dn = e.bool('upstream_novel'), e.bool('downstream_novel')
+        e.assume(z3.And(st.US < st.U, st.U < st.D, st.D < st.DE))
+        for r, arr, x in ((st.usi, h.s, st.US), (st.ue, h.e, st.U), (st.ds, h.s, st.D), (st.dei, h.e, st.DE)):
+            e.assume(z3.Or(r == -1, z3.And(0 <= r, r < h.n, arr[r] == x)))
+            st.none_at.append(lambda t, r=r, arr=arr, x=x: z3.Implies(r == -1, arr[t] != x))
+        e.assume(z3.And(z3.Implies(st.un, st.ds != -1), z3.Implies(st.dn, st.ue != -1)))
+        self._cur = st
+        for t in (st.usi, st.ue, st.ds, st.dei, st.ue + 1, st.ds - 1, z3.IntVal(0), h.n - 1):
+            self.add_term(I, t)
+        st.junction = SymObj('SpliceJunction', upstream_start=st.US, upstream_end=st.U, downstream_start=st.D, downstream_end=st.DE, gene_id='G', chrom='chr1')
+        st.aln = SymObj('SpliceJunctionTranscriptAlignment', junction=st.junction, tx_model=h.obj, upstream_start_index=st.usi, upstream_end_index=st.ue,
+                        downstream_start_index=st.ds, downstream_end_index=st.dei, upstream_novel=st.un, downstream_novel=st.dn)
+        st.anno, st.gene_seq, st.var_id = SymObj('Anno16d'), SymObj('GeneSeq16'), SymObj('VarId16')
+        st.args = [st.aln, st.anno, st.gene_seq, st.var_id]
+        self._cur = st
+        return st
+
+    def add_term(self, I, t):
+        st, h = self._cur, self._cur.h
+        inr = lambda q: z3.And(0 <= q, q < h.n)
+        facts = [z3.Implies(inr(t), z3.And(h.s[t] < h.e[t], h.s[t] >= 0))]
+        for u in st.terms:
+            facts.append(z3.Implies(z3.And(inr(t), inr(u), t < u), h.e[t] < h.s[u]))
+            facts.append(z3.Implies(z3.And(inr(t), inr(u), u < t), h.e[u] < h.s[t]))
+        for f in st.none_at:
+            facts.append(z3.Implies(inr(t), f(t)))
+        st.terms.append(t)
+        I.e.assume(z3.And(*facts))
+
+    def add_none_at(self, I, f):
+        st, h = self._cur, self._cur.h
+        st.none_at.append(f)
+        I.e.assume(z3.And(*[z3.Implies(z3.And(0 <= t, t < h.n), f(t)) for t in st.terms]))
+
+    @property
+    def models(self):
+        c = self
+        A = 'SpliceJunctionTranscriptAlignment'
+
+        def inst(reg):
+            install_exon_identity(reg)
+
+            def interjacent(I, o, a, k):
+                st, h, e = c._cur, c._cur.h, I.e
+                e.prove('C16/convert/lookups-on-this-alignment', o is st.aln)
+                first, m = e.int('first_interjacent'), e.int('n_interjacent')
+                last = first + m - 1
+                fwd = st.ue > -1
+                # postcondition of get_interjacent_exons (its own contract): consecutive exons inside the gap, next to the aligned exon, maximal
+                e.assume(z3.And(m >= 0, first == z3.If(fwd, st.ue + 1, st.ds - m),
+                                z3.Implies(m > 0, z3.And(0 <= first, last < h.n, st.U <= h.s[first], h.e[last] <= st.D)),
+                                z3.Implies(z3.And(st.ue == -1, st.ds == -1), m == 0)))
+                nxt = z3.If(fwd, st.ue + 1 + m, st.ds - 1 - m)
+                e.assume(z3.Or(nxt < 0, nxt >= h.n, z3.Not(z3.And(st.U <= h.s[nxt], h.e[nxt] <= st.D))))
+                for t in (first, last, nxt):
+                    c.add_term(I, t)
+                st.inter = _Interjacent(first, m)
+                return st.inter
+            reg.method_(A, 'get_interjacent_exons', interjacent)
+
+            def spanning(side):
+                def f(I, o, a, k):
+                    st, h, e = c._cur, c._cur.h, I.e
+                    e.prove('C16/convert/lookups-on-this-alignment', o is st.aln)
+                    sp = e.int(f'{side}_spanning')
+                    x = st.U - 1 if side == 'upstream' else st.D
+                    cand = (lambda q: z3.And(0 <= q, q < h.n, z3.Or(st.ds == -1, q < st.ds))) if side == 'upstream' else \
+                           (lambda q: z3.And(0 <= q, q < h.n, z3.Or(st.ue == -1, q > st.ue)))
+                    e.assume(z3.Or(sp == -1, z3.And(cand(sp), h.s[sp] <= x, x < h.e[sp])))
+                    c.add_term(I, sp)
+                    c.add_none_at(I, lambda t: z3.Implies(z3.And(sp == -1, cand(t)), z3.Not(z3.And(h.s[t] <= x, x < h.e[t]))))
+                    setattr(st, f'sp_{side}', sp)
+                    return sp
+                return f
+            reg.method_(A, 'get_upstream_end_spanning', spanning('upstream'))
+            reg.method_(A, 'get_downstream_start_spanning', spanning('downstream'))
+
+            def create(kind):
+                def f(I, o, a, k):
+                    st, h, e = c._cur, c._cur.h, I.e
+                    side, what = kind.split('_')
+                    a = list(a)
+                    tail = a[-3:]
+                    e.prove(f'C16/convert/{kind}/gets-the-annotation-gene-sequence-and-id-of-this-call',
+                            o is st.aln and len(tail) == 3 and tail[0] is st.anno and tail[1] is st.gene_seq and tail[2] is st.var_id and not k)
+                    inter = getattr(st, 'inter', None)
+                    first, m = (inter.first, inter.m) if inter is not None else (z3.IntVal(0), z3.IntVal(0))
+                    last = first + m - 1
+                    if what == 'deletion':
+                        sp = a[0]
+                        e.prove(f'C16/convert/{kind}/requires/spanning-and-interjacent-are-the-lookup-results-of-this-alignment',
+                                len(a) == 5 and a[1] is inter and sp is getattr(st, f'sp_{side}', None))
+                        if side == 'upstream':
+                            pre = z3.And(0 <= sp, sp < h.n, h.s[sp] <= st.U - 1, st.U - 1 < h.e[sp], z3.Implies(m > 0, first == sp + 1), z3.Or(h.e[sp] > st.U, m > 0))
+                        else:
+                            pre = z3.And(0 <= sp, sp < h.n, h.s[sp] <= st.D, st.D < h.e[sp], z3.Implies(m > 0, last == sp - 1), z3.Or(h.s[sp] < st.D, m > 0))
+                        e.prove(f'C16/convert/{kind}/requires/spanning-exon-contains-the-base-next-to-the-junction-interjacent-run-adjacent-something-to-delete', pre)
+                    elif what == 'substitution':
+                        e.prove(f'C16/convert/{kind}/requires/interjacent-is-the-lookup-result-and-not-empty', z3.And(m >= 1) if len(a) == 4 and a[0] is inter else False)
+                    else:
+                        if side == 'upstream':
+                            e.prove(f'C16/convert/{kind}/requires/an-exon-precedes-the-downstream-exon-and-nothing-lies-between', z3.And(st.ds > 0, m == 0))
+                        else:
+                            e.prove(f'C16/convert/{kind}/requires/an-exon-follows-the-upstream-exon-and-nothing-lies-between',
+                                    z3.And(z3.Implies(st.ue >= 0, st.ue + 1 < h.n), m == 0, st.dei > -1, st.dei < h.n - 1))
+                    # a record is only built on a side whose junction end is not already an exon boundary with nothing in between
+                    done = z3.And(st.ue != -1, m == 0) if side == 'upstream' else z3.And(st.ds != -1, m == 0)
+                    e.prove(f'C16/convert/{kind}/nothing-is-built-where-the-transcript-already-has-this-junction-end', z3.Not(done))
+                    r = SymObj('VariantRecord', kind=kind, n=len(st.made))
+                    st.made.append(r)
+                    return r
+                return f
+            for kind in ('upstream_deletion', 'downstream_deletion', 'upstream_substitution', 'downstream_substitution', 'upstream_insertion', 'downstream_insertion'):
+                reg.method_(A, f'create_{kind}', create(kind))
+        return (inst,)
+
+    def post_return(self, I, st, ret):
+        e = I.e
+        e.prove('C16/convert/returns-exactly-the-records-constructed-in-order', isinstance(ret, list) and len(ret) == len(st.made) and all(x is y for x, y in zip(ret, st.made)))
+        kinds = [r.fields['kind'] for r in st.made]
+        e.prove('C16/convert/at-most-one-record-per-side', len([k for k in kinds if k.startswith('upstream')]) <= 1 and len([k for k in kinds if k.startswith('downstream')]) <= 1)
+        if any(k.startswith('upstream') for k in kinds):
+            e.prove('C16/convert/upstream-side-record-only-for-a-novel-upstream-exon-or-a-minus-strand-skip', z3.Or(st.un, z3.And(z3.Not(st.dn), st.h.strand == -1)))
+        if any(k.startswith('downstream') for k in kinds):
+            e.prove('C16/convert/downstream-side-record-only-for-a-novel-downstream-exon-or-a-plus-strand-skip', z3.Or(st.dn, z3.And(z3.Not(st.un), st.h.strand == 1)))
 
 
 @register
